@@ -428,6 +428,9 @@ METHODS = [
     "memory_maps", "rlimit", "rlimit_set", "ionice", "ionice_set",
     "num_handles", "username", "suspend", "resume", "kill", "terminate",
     "send_signal", "wait0", "is_running", "as_dict_some",
+    # the same getters inside an explicit oneshot() block, in two fixed
+    # orders (as_dict() walks a set: its order follows the hash seed)
+    "oneshot_fwd", "oneshot_rev",
 ]
 SKIP = {
     # methods that shell out / use the real PATH (DESIGN 9/C20: uncovered)
@@ -459,13 +462,20 @@ def call_method(psutil, p, m):
     if m == "as_dict_some":
         return p.as_dict(attrs=["name", "ppid", "cpu_times", "status"],
                          ad_value="<ad>")
+    if m in ("oneshot_fwd", "oneshot_rev"):
+        names = ["name", "ppid", "cpu_times", "status", "memory_info"]
+        if m == "oneshot_rev":
+            names.reverse()
+        with p.oneshot():
+            return [repr(getattr(p, n)()) for n in names]
     return getattr(p, m)()
 
 
 def available(psutil, m):
     base = {"nice_set": "nice", "cpu_affinity_set": "cpu_affinity",
             "rlimit_set": "rlimit", "ionice_set": "ionice", "wait0": "wait",
-            "as_dict_some": "as_dict"}.get(m, m)
+            "as_dict_some": "as_dict", "oneshot_fwd": "oneshot",
+            "oneshot_rev": "oneshot"}.get(m, m)
     return hasattr(psutil.Process, base)
 
 
@@ -862,7 +872,7 @@ class Foreign(EngineBase):
                     method == "nice_set":
                 return True
             if platform == "win32" and pid in (0, 4) and method in (
-                    "cwd", "as_dict_some"):
+                    "cwd", "as_dict_some", "oneshot_fwd", "oneshot_rev"):
                 return True
             if platform == "win32" and "partial" in classes:
                 return True
